@@ -41,6 +41,7 @@ Items == {
   Stmt("A", TRUE, <<Var("M")>>, <<Kw("c", Var("Cx")), Kw("z", Var("Z"))>>, <<I(0), I(1)>>, "par"),
   Stmt("T", TRUE, <<Par("a"), Bin("/", Bin("*", I(2), Par("ab")), I(3))>>, <<>>, <<I(0)>>, "none"),
   Stmt("T2", TRUE, <<Bin("*", [t |-> "pi"], Par("alpha")), Bin("**", Par("s"), I(2))>>, <<Kw("k", Par("al")), Kw("m", Bin("-", I(1), Par("sq")))>>, <<I(1)>>, "none"),
+  Stmt("Ov", TRUE, <<Bin("+", Bin("*", Par("a"), Par("ab")), Par("al")), Bin("/", Par("alpha"), Par("al"))>>, <<Kw("w", Bin("-", Bin("*", I(2), Par("s")), Par("sq")))>>, <<I(0)>>, "none"),
   Stmt("Rg", TRUE, <<Reg(0), Bin("*", I(2), Reg(1))>>, <<Kw("phi", Bin("+", Bin("*", F(1, 2), Reg(10)), Reg(1)))>>, <<I(2)>>, "none"),
   Stmt("MeasureX", FALSE, <<>>, <<>>, <<I(0)>>, "none"),
   [t |-> "for", ty |-> "int", x |-> "i", hdr |-> [t |-> "range", a |-> 0, b |-> 2, c |-> 0, hasc |-> FALSE],
